@@ -11,7 +11,7 @@
    the limit of the k-step expected discounted returns Vn. *)
 From Coq Require Import QArith Qreals Reals List Bool Relations.
 From MSDM Require Import base.Num base.NumInst model.MDP model.VI model.PolicyEval theory.Bellman
-     theory.PolicyEvalTheory theory.PolicyEvalUndisc theory.PolicyEvalTransfer theory.PolicyEvalMain
+     theory.PolicyEvalTheory theory.PolicyEvalUndisc theory.PolicyEvalLimit theory.PolicyEvalTransfer theory.PolicyEvalMain
      theory.PolicyEvalExample.
 Local Open Scope R_scope.
 
@@ -219,10 +219,9 @@ Theorem C02_closed_class_is_closed :
 Proof. exact closed_class_is_closed. Qed.
 Print Assumptions C02_closed_class_is_closed.
 
-(* otherwise the value is finite, solves the transient system, and so do all its successors.
-   PARTIAL: that this finite number is the limit of the k-step expected total reward is not proved
-   (needs the hitting-time bound for transient states); see C02_undisc_kstep_lower_partial. *)
-Theorem C02_undisc_finite_partial :
+(* otherwise the value is finite, solves the transient system (residual <= tolV), and so do all its
+   successors *)
+Theorem C02_undisc_finite :
   forall nS nA P Rw av ab ini g psl pal data V Qv Oc iv tl,
   @c02_undisc Q NumQ (mQ nS nA P Rw av ab ini g) (piQ psl pal data) (mk_eout V Qv Oc iv) tl = all_true 11 ->
   forall s, (s < nS)%nat -> ~ reaches_negative_class (mR nS nA P Rw av ab ini g) (piR psl pal data) s ->
@@ -233,30 +232,52 @@ Theorem C02_undisc_finite_partial :
                                    * Vf (eoR V Qv Oc iv) z))) <= Q2R (tolV tl) /\
     forall z, (z < nS)%nat -> 0 < Ppi (mR nS nA P Rw av ab ini g) (piR psl pal data) s z ->
       exists w, eV (eoR V Qv Oc iv) z = Fin w.
-Proof. exact main_undisc_finite_partial. Qed.
-Print Assumptions C02_undisc_finite_partial.
+Proof. exact main_undisc_finite. Qed.
+Print Assumptions C02_undisc_finite.
 
-(* PARTIAL: off the -inf set the k-step expected total reward Vnu decreases in k, is <= 0 and stays above
-   every non-positive exact solution W of the transient system: it converges to a FINITE limit >= W.
-   Missing: limit = W (hitting-time bound), and divergence to -inf on the -inf set (kstep_diverges). *)
-Theorem C02_undisc_kstep_lower_partial :
+(* what the two cases MEAN, in terms of the k-step expected total reward Vnu of the policy
+   (Vnu 0 = 0, Vnu (k+1) s = r_pi s + sum_z P_pi s z * Vnu k z; absorbing states stop the process):
+   where -inf is reported, Vnu k s -> -inf ... *)
+Theorem C02_undisc_kstep_diverges :
+  forall nS nA P Rw av ab ini g psl pal data V Qv Oc iv tl,
+  @c02_undisc Q NumQ (mQ nS nA P Rw av ab ini g) (piQ psl pal data) (mk_eout V Qv Oc iv) tl = all_true 11 ->
+  forall s, (s < nS)%nat -> eV (eoR V Qv Oc iv) s = NInf ->
+  forall M, exists K, forall k, (K <= k)%nat ->
+    Vnu (mR nS nA P Rw av ab ini g) (piR psl pal data) k s < - M.
+Proof. exact main_undisc_kstep_diverges. Qed.
+Print Assumptions C02_undisc_kstep_diverges.
+
+(* ... elsewhere Vnu k s converges to (any, hence the) solution of the transient system ... *)
+Theorem C02_undisc_kstep_converges :
   forall nS nA P Rw av ab ini g psl pal data V Qv Oc iv tl,
   @c02_undisc Q NumQ (mQ nS nA P Rw av ab ini g) (piQ psl pal data) (mk_eout V Qv Oc iv) tl = all_true 11 ->
   forall W : nat -> R,
   (forall s, (s < nS)%nat ->
      neginf (mR nS nA P Rw av ab ini g) (piR psl pal data) (accM (mR nS nA P Rw av ab ini g) (piR psl pal data)) s = false ->
-     W s <= 0) ->
-  (forall s, (s < nS)%nat ->
-     neginf (mR nS nA P Rw av ab ini g) (piR psl pal data) (accM (mR nS nA P Rw av ab ini g) (piR psl pal data)) s = false ->
      W s = rpi (mR nS nA P Rw av ab ini g) (piR psl pal data) s
            + sumf nS (fun z => Pt (mR nS nA P Rw av ab ini g) (piR psl pal data)
                                   (accM (mR nS nA P Rw av ab ini g) (piR psl pal data)) s z * W z)) ->
-  forall k s, (s < nS)%nat -> ~ reaches_negative_class (mR nS nA P Rw av ab ini g) (piR psl pal data) s ->
-    W s <= Vnu (mR nS nA P Rw av ab ini g) (piR psl pal data) k s /\
-    Vnu (mR nS nA P Rw av ab ini g) (piR psl pal data) (S k) s <= Vnu (mR nS nA P Rw av ab ini g) (piR psl pal data) k s /\
-    Vnu (mR nS nA P Rw av ab ini g) (piR psl pal data) k s <= 0.
-Proof. exact main_undisc_kstep_lower_partial. Qed.
-Print Assumptions C02_undisc_kstep_lower_partial.
+  forall s, (s < nS)%nat -> ~ reaches_negative_class (mR nS nA P Rw av ab ini g) (piR psl pal data) s ->
+    Un_cv (fun k => Vnu (mR nS nA P Rw av ab ini g) (piR psl pal data) k s) (W s).
+Proof. exact main_undisc_kstep_converges. Qed.
+Print Assumptions C02_undisc_kstep_converges.
+
+(* ... and, given the absorption-time certificate tau (tau >= 1 + P_t tau off the -inf set; produced by
+   the harness' exact solve and checked by c02_tau in the same vm_compute run), that limit W exists and
+   the reported finite values are within tolV * tau of it: "the finite expected total reward" *)
+Theorem C02_undisc_expected_total_reward :
+  forall nS nA P Rw av ab ini g psl pal data V Qv Oc iv tl,
+  @c02_undisc Q NumQ (mQ nS nA P Rw av ab ini g) (piQ psl pal data) (mk_eout V Qv Oc iv) tl = all_true 11 ->
+  forall tau : list Q,
+  @c02_tau Q NumQ (mQ nS nA P Rw av ab ini g) (piQ psl pal data) tau = true -> 0 <= Q2R (tolV tl) ->
+  exists W : nat -> R,
+    (forall s, (s < nS)%nat -> ~ reaches_negative_class (mR nS nA P Rw av ab ini g) (piR psl pal data) s ->
+       Un_cv (fun k => Vnu (mR nS nA P Rw av ab ini g) (piR psl pal data) k s) (W s)) /\
+    (forall s, (s < nS)%nat -> ~ reaches_negative_class (mR nS nA P Rw av ab ini g) (piR psl pal data) s ->
+       exists v, eV (eoR V Qv Oc iv) s = Fin v /\
+                 Rabs (v - W s) <= Q2R (tolV tl) * Q2R (untab tau s)).
+Proof. exact main_undisc_expected_total_reward. Qed.
+Print Assumptions C02_undisc_expected_total_reward.
 
 Theorem C02_undisc_absorbing_zero :
   forall nS nA P Rw av ab ini g psl pal data V Qv Oc iv tl,
@@ -336,6 +357,7 @@ Theorem C02_nonvacuous_undisc :
   @c02_undisc Q NumQ (mQ 5 2 uP uR uAv uAb uIni 1%Q) (piQ uPsl uPal uData)
               (mk_eout uV uQ uOc NInf) dT = all_true 11 /\
   reaches_negative_class (mR 5 2 uP uR uAv uAb uIni 1%Q) (piR uPsl uPal uData) 0 /\
-  ~ reaches_negative_class (mR 5 2 uP uR uAv uAb uIni 1%Q) (piR uPsl uPal uData) 4.
-Proof. exact (conj ex_undisc_check (conj ex_undisc_neginf ex_undisc_finite)). Qed.
+  ~ reaches_negative_class (mR 5 2 uP uR uAv uAb uIni 1%Q) (piR uPsl uPal uData) 4 /\
+  @c02_tau Q NumQ (mQ 5 2 uP uR uAv uAb uIni 1%Q) (piQ uPsl uPal uData) uTau = true.
+Proof. exact (conj ex_undisc_check (conj ex_undisc_neginf (conj ex_undisc_finite ex_undisc_tau))). Qed.
 Print Assumptions C02_nonvacuous_undisc.
